@@ -191,6 +191,10 @@ class SymList:
     def sym_getattr(self, interp, name):
         if name == "append":
             def app(interp, x):
+                if isinstance(x, Opt):
+                    # an Optional stored after its `is None` test: it must be non-None on this path
+                    interp.cx.oblige("prim.append.optional_is_not_none", not_(x.is_none), kind="prim")
+                    x = x.value
                 n, g = self.length, self.get
                 self.length = n + 1
                 self.get = lambda i, n=n, g=g, x=x: ite_val(i == n, x, g(i))
